@@ -54,8 +54,6 @@ def run(chk):
     recs = chk.generate(MODULE, "C02_gen.cfg", "gen", timeout=3000)
     for v in (["std", "i64"] if quick else ["std", "verify", "i64", "i128s", "noasm"]):
         chk.replay(recs, v, "generated boundary records")
-    # the same records on a context whose SHA-256 compression function was replaced by a correct one (results must be identical)
-    chk.replay(recs, "std", "generated boundary records, replaced SHA-256 compression", env={"VH_CUSTOM_SHA": "1"})
     chk.validate(driver(chk, 150 if quick else 1500), MODULE, "C02_trace.cfg", "driver")
     return chk.finish(LEVEL,
         "G: TLC enumerates Cases of C02_Schnorr.tla (keys of both parities, message lengths, aux variants, sign routes, every single-bit flip of a valid signature, "
